@@ -1,5 +1,6 @@
 import PyPhysim.Model.Proto
 import PyPhysim.Model.C05
+import PyPhysim.Model.C05Params
 open PyPhysim.Proto PyPhysim.C05
 
 /-!
@@ -134,7 +135,62 @@ def handleGrid (toks : List String) : Option String := do
   let pk := looks.map (fun fx => showPack toString (packIndexes ps fx))
   some s!"order={showList (·.1) sp} n={prod (dimsOf ps)} nc={(combos ps).length} combos={cs} pack={"/".intercalate pk}"
 
+/-! ### histories that also mutate the parameters object -/
+
+inductive HOp
+  | all
+  | par (op : POp)
+  | query (fixed : List (String × Int))
+
+def parseFixedPlus (s : String) : Option (List (String × Int)) :=
+  (fields s "+").mapM (fun t =>
+    match t.splitOn ":" with
+    | [k, v] => v.toInt?.map (fun v => (k, v))
+    | _ => none)
+
+def parseHOp (t : String) : Option HOp :=
+  if t = "all" then some .all
+  else if t.startsWith "q:" then (parseFixedPlus (t.drop 2).toString).map HOp.query
+  else match t.splitOn ":" with
+    | ["padd", n, vs] => (parseIntList? vs ".").map (fun l => HOp.par (.add n (.list l)))
+    | ["pscalar", n, v] => v.toInt?.map (fun v => HOp.par (.add n (.scalar v)))
+    | ["prem", n] => some (HOp.par (.remove n))
+    | ["punp", n, b] => some (HOp.par (.setUnpack n (b == "1")))
+    | _ => none
+
+def runHist (repMax : Nat) (keep : Nat → Keep Res) :
+    List HOp → PState → Runner Res → List (Outcome Res) → Bool → List String → List String
+  | [], _, _, _, _, acc => acc.reverse
+  | .par op :: ops, ps, r, outs, sim, acc =>
+    let (ps', e) := ps.step op
+    runHist repMax keep ops ps' r outs sim (("p=" ++ showStatus e) :: acc)
+  | .all :: ops, ps, r, outs, sim, acc =>
+    match ps.view with
+    | .error e => runHist repMax keep ops ps r outs sim (("st=" ++ toString e) :: acc)
+    | .ok pl =>
+      let cfg : Cfg Res := ⟨Res.merge, repMax, dimsOf pl, keep⟩
+      let e := simulateAll cfg r outs
+      runHist repMax keep ops ps e.runner e.rest true (showEnd (!cfg.dims.isEmpty) e :: acc)
+  | .query fx :: ops, ps, r, outs, sim, acc =>
+    let line := match ps.lookup r.results fx with
+      | .error e => "q=" ++ toString e
+      | .ok (l : Lookup (Stored Res)) =>
+        let cs := showList (fun (c : List Int) => showList toString c ".") l.combos "|"
+        let rv := if sim then showPack (fun (s : Stored Res) => toString s.acc.tok) l.values else "-"
+        s!"n={l.num} nc={l.combos.length} combos={cs} pack={showPack toString l.pack} rv={rv}"
+    runHist repMax keep ops ps r outs sim (line :: acc)
+
+def handleHist (toks : List String) : Option String := do
+  let pl ← parseParams ((kv toks "names").getD "") ((kv toks "vals").getD "")
+  let repMax ← (kv toks "repmax").bind String.toNat?
+  let keep ← parseKeep ((kv toks "keep").getD "always")
+  let ops ← (fields ((kv toks "ops").getD "") ",").mapM parseHOp
+  let outs ← parseOuts ((kv toks "outs").getD "")
+  let ps0 : PState := ⟨pl.map (fun p => (p.1, PVal.list p.2)), (pl.map (·.1)).reverse⟩
+  some (" ; ".intercalate (runHist repMax keep ops ps0 (Runner.new false) outs false []))
+
 def handle : List String → String
+  | "hist" :: toks => (handleHist toks).getD "bad-op"
   | "sim" :: toks => (handleSim toks).getD "bad-op"
   | "grid" :: toks => (handleGrid toks).getD "bad-op"
   | _ => "bad-op"
